@@ -79,7 +79,7 @@ def tables(draw):
                 kills=draw(st.sampled_from([0, 0, 0b1001, 0b110110])),
                 # X, Y and lon, lat all in the table (documented: the grid position is used); lon/lat then are
                 # ordinary extra columns, here deliberately pointing somewhere else
-                both=draw(st.sampled_from([False, False, True])),
+                both=draw(st.sampled_from([False, False, True])), defaults=draw(st.booleans()),
                 # how the release frequency is written: seconds, [value, unit], ISO 8601 duration, timedelta
                 freq_spell=draw(st.sampled_from(["int", "int", "list", "iso", "iso_full", "timedelta", "td64"])))
 
@@ -161,7 +161,12 @@ def oracle(case) -> core.CaseResult:
     if case.get("both") and not case["lonlat"]:
         ivars["lon"] = float
         ivars["lat"] = float
-    state = State(instance_variables=ivars, particle_variables=pvars)
+    # variables that come with the release rows may also have a configured default (used only where no value
+    # is given): the row's value wins
+    defaults = {}
+    if case.get("defaults"):
+        defaults = {e: {"kind": 7, "w": 1.5}[e] for e in case["extras"] if e in ("kind", "w")}
+    state = State(instance_variables=ivars, particle_variables=pvars, default_values=defaults or None)
     tk = TimeKeeper(start=e2e.iso(start), stop=e2e.iso(stop), dt=DT, time_reversal=case["reverse"])
     cols = list(case["cols"])
     both = bool(case.get("both")) and not case["lonlat"]
